@@ -29,12 +29,23 @@ def _freeze_value(x):
         return x
 
 
+def _types_of(x):
+    if isinstance(x, tuple):
+        return tuple(_types_of(v) for v in x)
+    elif isinstance(x, frozendict.frozendict):
+        return frozendict.frozendict({k: _types_of(v) for k, v in x.items()})
+    else:
+        return type(x)
+
+
 def _freeze_args(func):
     @functools.wraps(func)
     def func_frozen(*args, **kwargs):
-        args = [_freeze_value(a) for a in args]
+        args = tuple(_freeze_value(a) for a in args)
         kwargs = {k: _freeze_value(v) for k, v in kwargs.items()}
-        return func(*args, **kwargs)
+        # Values that compare equal but have different types (e.g. 2, 2.0 and True) must not share a cache entry
+        types = _types_of((args, frozendict.frozendict(kwargs)))
+        return func(types, *args, **kwargs)
 
     return func_frozen
 
@@ -92,11 +103,20 @@ def _with_retrace_warning(func):
         return func
 
 
+def _ignore_first_arg(func):
+    @functools.wraps(func)
+    def func_typed(types, *args, **kwargs):
+        return func(*args, **kwargs)
+
+    return func_typed
+
+
 # An LRU-cache that
 # 1. allows using some mutable objects (np.ndarray, list and dict) as keys
 # 2. warns if there are more than EINX_WARN_ON_RETRACE cache failures from the same call site
 def lru_cache(func):
     func = _with_retrace_warning(func)
+    func = _ignore_first_arg(func)
 
     if max_cache_size > 0:
         func = functools.lru_cache(maxsize=max_cache_size if max_cache_size > 0 else None)(func)
